@@ -35,7 +35,7 @@ func (P) Engine() string { return "E1+E2" }
 func (P) Describe() harness.Description {
 	return harness.Description{
 		MustHit: []string{"request_queued", "rejected_for_queueing", "concurrent_request_queued"},
-		Level: "exploration",
+		Level:   "exploration",
 		Rule: "case = (throttling rule: threshold in {0, 0.5, 1..1000}, statistic interval {default, 100 ms, 1 s, 10 s}, max queueing time {0, 1, 10, 100, 500, 2000 ms}; E1: 10-60 requests with batches and nanosecond ticks biased to the pacing interval and the queueing limit, the requested Sleep is captured at the clock seam without advancing time so queues build up; E2 (35%): 2-3 callers with 2-6 requests each, ticks allowed while a caller is between its atomic add and its roll-back, callers really park for their requested wait in virtual time). " +
 			"E1: decision and requested wait equal the reference queue (admit at max(now,last+D) unless that wait exceeds the limit or batch > threshold; D = ceil(batch*interval/threshold) with a 1 ns rounding band). E2: admitted requests ordered by pass time (arrival the check read + requested wait) are each >= D(own batch) after their predecessor, no wait above the limit. " +
 			"non-trivial = at least one request waited and at least one was rejected for queueing; distinct = hash(config, ops[, schedule])",
